@@ -24,7 +24,10 @@ def check(ctx, B, L, R, cfg, ts, labels, out):
         if isinstance(e, ExecTimeout):
             ctx.violation('%s|TIMEOUT' % PROP, 'merge did not terminate within the limit', case)
         else:
-            ctx.violation(exc_fingerprint(PROP, e), 'merge_notebooks raised %s: %s' % (type(e).__name__, str(e)[:200]), case)
+            fp = exc_fingerprint(PROP, e)
+            if "'nbdime-conflicts'" in str(e):
+                fp += '|key:nbdime-conflicts'       # classifier: the failing key is the record of an earlier merge's conflicts
+            ctx.violation(fp, 'merge_notebooks raised %s: %s' % (type(e).__name__, str(e)[:200]), case)
         return
     ctx.count('returned')
     if out.conflicted:
